@@ -124,7 +124,14 @@ def cases(draw):  # pylint: disable=too-many-locals,too-many-branches,too-many-s
                 end = "out"
             if end == "out":
                 tx, ty = rnd.target("grid", 0, draw(st.integers(0, 4)), draw(st.integers(0, 4)))
+                tx, ty = abs(tx) % 2.0, abs(ty) % 2.0          # next to the home corner, which no region covers
                 prog.append(["g", "G1 X%s Y%s" % (gen.fmt(tx), gen.fmt(ty))])
+                if draw(st.integers(0, 3)) == 0:
+                    # between two episodes the user re-assigns the modes of the configured codes (same codes, other modes)
+                    ext = dict(ext)
+                    for c in codes:
+                        ext[c] = draw(st.sampled_from(["exclude", "first", "last", "merge"] if c != "M117" else ["exclude", "first", "last"]))
+                    prog.append(["set_ext", dict(ext)])
             elif end == "disable":
                 prog.append(["at", "ExcludeRegion", "off"])
                 prog.append(["at", "ExcludeRegion", "on"])
@@ -218,6 +225,10 @@ def check_trace(tr, ext, enter, exit_):  # pylint: disable=too-many-branches,too
     nontrivial = False
     enter_emitted = exit_emitted = 0
     for it in tr.items:
+        if it.kind == "set_ext":
+            ext = dict(it.item[1])          # the modes in force from here on
+            cl.add("modes_reassigned_mid_print")
+            continue
         if it.kind == "event":
             if it.item[1] == "PRINT_STARTED":
                 if pending:
